@@ -20,12 +20,44 @@ def succs(term):
     return out
 
 
-def normal_succs(term):
+def const_locals(m):
+    """Locals assigned exactly once, from a constant: {local: int value}."""
+    count, val = {}, {}
+    for b in m["blocks"]:
+        for s in b["stmts"]:
+            if s["k"] == "Assign" and not s["place"].get("p"):
+                l = s["place"]["l"]
+                count[l] = count.get(l, 0) + 1
+                rv = s["rv"]
+                if rv["k"] == "Use" and rv["op"].get("k") == "const" and (rv["op"].get("c") or {}).get("int") is not None:
+                    val[l] = rv["op"]["c"]["int"]
+        t = b["term"]
+        if t["k"] == "Call" and t.get("dest") and not t["dest"].get("p"):
+            count[t["dest"]["l"]] = count.get(t["dest"]["l"], 0) + 1
+    return {l: v for l, v in val.items() if count.get(l) == 1}
+
+
+def normal_succs(term, consts=None):
     """Successors excluding unwind/cleanup edges."""
     k = term["k"]
+    if k == "SwitchInt" and consts:
+        d = term.get("discr") or {}
+        if d.get("k") in ("copy", "move") and not d["place"].get("p") and d["place"]["l"] in consts:
+            v = consts[d["place"]["l"]]
+            for val, bb in term["targets"]:
+                if val == v:
+                    return [bb]
+            return [term["otherwise"]]
     if k == "Goto":
         return [term["target"]]
     if k == "SwitchInt":
+        d = term.get("discr") or {}
+        if d.get("k") == "const" and (d.get("c") or {}).get("int") is not None:
+            v = d["c"]["int"]          # `if cfg!(debug_assertions)` and similar constant conditions: only the taken arm
+            for val, bb in term["targets"]:
+                if val == v:
+                    return [bb]
+            return [term["otherwise"]]
         return [t[1] for t in term["targets"]] + [term["otherwise"]]
     if k in ("Drop", "Assert"):
         return [term["target"]]
@@ -42,7 +74,8 @@ class Cfg:
         self.blocks = m["blocks"]
         self.n = len(self.blocks)
         self.locals = m["locals"]
-        self.succ = [normal_succs(b["term"]) for b in self.blocks]
+        self.consts = const_locals(m)
+        self.succ = [normal_succs(b["term"], self.consts) for b in self.blocks]
         self.pred = [[] for _ in range(self.n)]
         for i, ss in enumerate(self.succ):
             for s in ss:
